@@ -242,39 +242,39 @@ def World.logCall (w : World) (st : EState) (sig : CmdSig) (args : List Val) : W
   if isLibraryCommand sig.name then w else w.log (callText sig.ns sig.name (if sig.first then .none else st.data) args)
 
 /-- final progress metadata of a sub-evaluating command -/
-def subW (raw : Str) (o : Outcome) (w : World) : World :=
+def subW (uc : Bool) (raw : Str) (o : Outcome) (w : World) : World :=
   match o with
-  | .st sub => w.storeMeta raw (if sub.isError then s "error" else statusReady)
-  | .parseError => w.storeMeta raw (s "error")
+  | .st sub => w.metaIf uc raw (if sub.isError then s "error" else statusReady)
+  | .parseError => w.metaIf uc raw (s "error")
   | _ => w
 
 /-- conversion of the arguments and the call, evaluator side -/
 def evalCall (env : Env) (n : Nat) (w1 : World) (st : EState) (act : Action) (raw : Str) (sig : CmdSig)
-    (x : List PVal × List (Str × Val) × Bool) : World × Outcome :=
+    (x : List PVal × List (Str × Val) × Bool) (uc : Bool) : World × Outcome :=
   match parseArgv sig.args x.1 x.2.1 with
   | .unmodelled => (w1, .unmodelled)
-  | .fail => (w1.storeMeta raw (s "error"),
+  | .fail => (w1.metaIf uc raw (s "error"),
       .st (failSt st act (mergeAttrs st.attrs sig.attrs) (x.2.2 || cmdVolatile sig.attrs) (some act.pos) (some raw)))
   | .ok args =>
     match cmdSem sig.ns sig.name st.data st.vars args with
     | .unmodelled => (w1.logCall st sig args, .unmodelled)
-    | .raises => ((w1.logCall st sig args).storeMeta raw (s "error"),
+    | .raises => ((w1.logCall st sig args).metaIf uc raw (s "error"),
         .st (failSt st act (mergeAttrs st.attrs sig.attrs) (x.2.2 || cmdVolatile sig.attrs) (some act.pos) (some raw)))
-    | .value v => ((w1.logCall st sig args).storeMeta raw statusReady, .st (doneSt st act sig x.2.2 v [] true))
-    | .stateVars v vars => ((w1.logCall st sig args).storeMeta raw statusReady, .st (doneSt st act sig x.2.2 v vars true))
-    | .nocache v => ((w1.logCall st sig args).storeMeta raw statusReady, .st (doneSt st act sig x.2.2 v [] false))
+    | .value v => ((w1.logCall st sig args).metaIf uc raw statusReady, .st (doneSt st act sig x.2.2 v [] true))
+    | .stateVars v vars => ((w1.logCall st sig args).metaIf uc raw statusReady, .st (doneSt st act sig x.2.2 v vars true))
+    | .nocache v => ((w1.logCall st sig args).metaIf uc raw statusReady, .st (doneSt st act sig x.2.2 v [] false))
     | .subeval y qtext =>
-      (subW raw (evalText env n (w1.logCall st sig args) qtext true).2 (evalText env n (w1.logCall st sig args) qtext true).1,
+      (subW uc raw (evalText env n (w1.logCall st sig args) qtext true).2 (evalText env n (w1.logCall st sig args) qtext true).1,
         subOutcome st act raw sig x.2.2 y (evalText env n (w1.logCall st sig args) qtext true).2)
 
 macro "fin_ecall" : tactic => `(tactic| (
   split
   · simp [*]
-  · simp [*, failSt]
+  · simp [*, failSt, World.metaIf]
   · simp only [*]
-    split <;> simp [*, failSt, doneSt, subOutcome, subW, World.logCall]
-    split <;> simp [*, failSt, doneSt]
-    split <;> simp [*]))
+    split <;> simp [*, failSt, doneSt, subOutcome, subW, World.logCall, World.metaIf]
+    split <;> simp [*, failSt, doneSt, World.metaIf]
+    split <;> simp [*, World.metaIf]))
 
 theorem evalAction_zero (env : Env) (w : World) (st : EState) (act : Action) (raw parent : Str) (extra : Extra) (uc : Bool) :
     evalAction env 0 w st act raw parent extra uc = (w, .unmodelled) := by simp [evalAction]
@@ -283,17 +283,17 @@ theorem evalAction_succ (env : Env) (n : Nat) (w : World) (st : EState) (act : A
     (extra : Extra) (uc : Bool) :
     evalAction env (n+1) w st act raw parent extra uc =
       match namespacesOf st.vars with
-      | none => (w.storeMeta raw (s "evaluation"), .unmodelled)
+      | none => (w.metaIf uc raw (s "evaluation"), .unmodelled)
       | some nss =>
-        if !(nss.getLast?.map env.reg.hasNs).getD false then (w.storeMeta raw (s "evaluation"), .unmodelled) else
+        if !(nss.getLast?.map env.reg.hasNs).getD false then (w.metaIf uc raw (s "evaluation"), .unmodelled) else
         match resolve env.reg nss act.name with
-        | none => ((w.storeMeta raw (s "evaluation")).storeMeta raw (s "error"),
+        | none => ((w.metaIf uc raw (s "evaluation")).metaIf uc raw (s "error"),
             .st (failSt st act (mergeAttrs st.attrs []) false (some act.pos) (some raw)))
         | some sig =>
-          match evalParams env n (w.storeMeta raw (s "evaluation")) act.params raw parent with
+          match evalParams env n (w.metaIf uc raw (s "evaluation")) act.params raw parent with
           | (w1, .inr o) => (w1, o)
-          | (w1, .inl given) => evalCall env n w1 st act raw sig (applyExtra extra given) := by
-  simp only [evalAction]
+          | (w1, .inl given) => evalCall env n w1 st act raw sig (applyExtra extra given) uc := by
+  simp only [evalAction, World.metaIf]
   cases hns : namespacesOf st.vars with
   | none => rfl
   | some nss =>
@@ -305,7 +305,7 @@ theorem evalAction_succ (env : Env) (n : Nat) (w : World) (st : EState) (act : A
       | none => rfl
       | some sig =>
         simp only []
-        rcases hp : evalParams env n (w.storeMeta raw (s "evaluation")) act.params raw parent with ⟨w1, r⟩
+        rcases hp : evalParams env n (if uc = true then w.storeMeta raw (s "evaluation") else w) act.params raw parent with ⟨w1, r⟩
         cases r with
         | inr o => rfl
         | inl given =>
@@ -387,7 +387,7 @@ def evalPost (env : Env) (n : Nat) (w1 : World) (st : EState) (parent : Str) (r 
   | none => (w1, .st { st with query := key })
   | some (.transform _ [] (some f)) =>
     (fileW uc key { st with filename := some f, extension := some (extensionOf f), query := key }
-        (w1.storeMeta raw (s "evaluation")),
+        (w1.metaIf uc raw (s "evaluation")),
       .st { st with filename := some f, extension := some (extensionOf f), query := key })
   | some (.transform _ [a] none) =>
     (match (evalAction env n w1 st a raw parent extra uc).2 with
@@ -404,7 +404,7 @@ def evalAfter (env : Env) (n : Nat) (w1 : World) (o : Outcome) (parent : Str) (r
   | .parseError => (w1, .parseError)
   | .unmodelled => (w1, .unmodelled)
   | .st st =>
-    if st.isError then (w1.storeMeta raw (s "error"), .st { st with data := .none, query := key })
+    if st.isError then (w1.metaIf uc raw (s "error"), .st { st with data := .none, query := key })
     else evalPost env n w1 st parent r key raw extra uc
 
 theorem evalQ_zero (env : Env) (w : World) (q : Query) (raw : Str) (extra : Extra) (input : Option Val) (uc : Bool) :
@@ -424,10 +424,10 @@ theorem evalQ_succ (env : Env) (n : Nat) (w : World) (q : Query) (raw : Str) (ex
             evalAfter env n w (.st (initSt env input)) [] r (q.encode Gen.escapeTable) raw extra uc
           else
             evalAfter env n
-              (evalQ env n (w.storeMeta raw (s "evaluating parent")) p (p.encode Gen.escapeTable) .none input uc).1
-              (evalQ env n (w.storeMeta raw (s "evaluating parent")) p (p.encode Gen.escapeTable) .none input uc).2
+              (evalQ env n (w.metaIf uc raw (s "evaluating parent")) p (p.encode Gen.escapeTable) .none input uc).1
+              (evalQ env n (w.metaIf uc raw (s "evaluating parent")) p (p.encode Gen.escapeTable) .none input uc).2
               (p.encode Gen.escapeTable) r (q.encode Gen.escapeTable) raw extra uc := by
-  simp only [evalQ]
+  simp only [evalQ, World.metaIf]
   generalize (if (extra.isEmpty && input.isNone && uc) = true then w.get (q.encode Gen.escapeTable) else none) = hit
   cases hit with
   | some st => rfl
@@ -448,17 +448,17 @@ theorem evalQ_succ (env : Env) (n : Nat) (w : World) (q : Query) (raw : Str) (ex
         simp only []
         cases hpe : p.segments.isEmpty
         · simp only [Bool.false_eq_true, if_false]
-          rcases hrec : evalQ env n (w.storeMeta raw (s "evaluating parent")) p (p.encode Gen.escapeTable) .none input uc with ⟨w1, o⟩
+          rcases hrec : evalQ env n (if uc = true then w.storeMeta raw (s "evaluating parent") else w) p (p.encode Gen.escapeTable) .none input uc with ⟨w1, o⟩
           cases o with
           | st st =>
             simp only [evalAfter]
             cases hse : st.isError
             · simp only [Bool.false_eq_true, if_false, evalPost]
-              split <;> simp [*, fileW, admitW] <;> (split <;> simp [*])
-            · simp
+              split <;> simp [*, fileW, admitW, World.metaIf] <;> (split <;> simp [*])
+            · simp [World.metaIf]
           | _ => simp [evalAfter]
         · simp only [if_true, evalAfter, initSt, Bool.false_eq_true, if_false, evalPost]
-          split <;> simp [*, fileW, admitW] <;> (split <;> simp [*])
+          split <;> simp [*, fileW, admitW, World.metaIf] <;> (split <;> simp [*])
 
 /-! ### the predecessor stage, uniformly -/
 
@@ -488,7 +488,7 @@ def refPre (env : Env) (m : Nat) (q : Query) (input : Option Val) : Outcome × L
 def evalPre (env : Env) (n : Nat) (w : World) (q : Query) (raw : Str) (input : Option Val) (uc : Bool) : World × Outcome :=
   match q.preQ with
   | none => (w, .st (initSt env input))
-  | some p => evalQ env n (w.storeMeta raw (s "evaluating parent")) p (p.encode Gen.escapeTable) .none input uc
+  | some p => evalQ env n (w.metaIf uc raw (s "evaluating parent")) p (p.encode Gen.escapeTable) .none input uc
 
 theorem refQ_succ' (env : Env) (n : Nat) (q : Query) (raw : Str) (extra : Extra) (input : Option Val) :
     refQ env (n+1) q raw extra input =
